@@ -48,6 +48,36 @@ def _dumps(mi):
     return _DUMPS[mi]
 
 
+_DUMPS_JSON = {}
+
+
+def _json_twice(mi, v):
+    """Repeated dumps give identical text -- also for the JSON flavour of the
+    dump functions, and also when a dump in between was refused half way
+    (an object referenced twice cannot be written as JSON)."""
+    if mi not in _DUMPS_JSON:
+        _DUMPS_JSON[mi] = yatiml.dumps_json_function(*_MODELS[mi][2])
+    dj = _DUMPS_JSON[mi]
+
+    def one():
+        try:
+            return dj(v)
+        except RuntimeError:
+            return 'RuntimeError'
+        except (UnicodeEncodeError, yaml.YAMLError):
+            return 'unencodable'
+    first = one()
+    shared = ['s']
+    try:
+        dj({'a': [shared, {'b': shared}]})
+    except RuntimeError:
+        pass
+    second = one()
+    if first != second and not SYMBOLIC:
+        note(first_json_dump=first, after_a_refused_dump=second)
+    return first == second
+
+
 _OPT_DEFAULTS = {'b': None, 'c': 'red', 'd': 1.5, 'e': False, 's': 'dflt',
                  'l': []}
 
@@ -161,6 +191,8 @@ def _dump_ok(mi, f, x, f2=None, x2=None):
             if not SYMBOLIC:
                 note(explicit_tag=tag)
             return False                    # tag-free
+    if not _json_twice(mi, v):
+        return False                        # determinism, JSON flavour
     if name in _NO_PROJECTION:
         return True
     parsed = yaml.load(text, Loader=yaml.SafeLoader)
@@ -206,7 +238,7 @@ CONDITIONS = [
     {'fn': 'dump_ok', 'slices': list(range(len(_MODELS))), 'quick': 110,
      'thorough': 300,
      'bound': 'one slice per class model: every alternative of every factor; '
-              'purity (structural snapshot), determinism (two dumps), one '
+              'purity (structural snapshot), determinism (two dumps; two JSON dumps around a refused one), one '
               'well-formed document, no explicit tag on any node, and '
               'safe_load(text) == projection with mapping order significant'},
     {'fn': 'dump_reach', 'slices': [0], 'quick': 60, 'thorough': 60,
